@@ -283,7 +283,7 @@ theorem harness_branch_alone_equiv (specs : List BSpec) (bufsize : Option Nat) (
   · intro b' hb' t ht
     obtain ⟨_, hst, sp, _, hops⟩ := h1 b' hb'
     rw [hops, hst] at ht
-    simp [hOps, AccSt.refs, cellsOf] at ht
+    simp [hOps, AccSt.refs, cellsOf, groupsCells] at ht
 
 
 /-! ## non-vacuity: a concrete instance of every hypothesis -/
@@ -333,14 +333,14 @@ example : ∀ b ∈ mkBranches 0 (demoSpecs.take 2), ∃ sched : List (HItem × 
   · intro b' hb' t ht
     obtain ⟨_, hst, sp, _, hops⟩ := h1 b' hb'
     rw [hops, hst] at ht
-    simp [hOps, AccSt.refs, cellsOf] at ht
+    simp [hOps, AccSt.refs, cellsOf, groupsCells] at ht
 
 /-! ## sentence 2: what an accumulator yields is new -/
 
 /-- every modelled framework accumulator (`Sum`, `DSum`, `Count`, `Mean` with and without `sum_seq`,
 `VarianceMeanCount`, `Vectorize`, `Histogram`, `SplitIntoBins`) allocates what it yields; excluded are those
 that yield the filled values by specification -/
-theorem accOps_freshYield (ns : Nat) (k : AccKind) (hk : k ≠ .store ∧ k ≠ .keepLast ∧ k ≠ .reqStore) :
+theorem accOps_freshYield (ns : Nat) (k : AccKind) (hk : k.fresh = true) :
     FreshYield (accOps ns k) ns (fun s : HSt => s.ctr) :=
   accOps_freshYield' ns k hk
 
